@@ -149,6 +149,8 @@ class C15(Check):
                                   delays=dl, build=rng.choice(['python', 'yaml']), libs=('lin', 'sat', 'osc', 'leak'))
             for e in _all_edges(spec):
                 e[2] = {k: v for k, v in e[2].items() if v is not None}
+            if rng.random() < 0.4:
+                models.add_edge_templates(rng, spec, p=0.6)
         if stratum == 'S-dual':
             return {'mode': 'dual', 'spec': spec}
         gens = rng.randint(1, 4)
